@@ -162,6 +162,14 @@ impl Monitor for TlvMon {
             }
             if !is_slave && matches!(s.ev, Ev::Bmca) && s.after.iter().any(|x| matches!(x, PS::Master)) {
                 st.path.clear();
+                // the instance is grandmaster now: its path is its own identity alone
+                if !got.is_empty() {
+                    local.push(Violation {
+                        signature: "path-trace-ds-not-cleared-when-grandmaster".into(),
+                        message: format!("no port is slave after the BMCA run but pathTraceDS still holds {} entries of the lost parent", got.len()),
+                        replay: json!(null),
+                    });
+                }
             }
         }
         if let Ev::T(q, Timer::Announce) = s.ev {
@@ -561,13 +569,38 @@ pub fn run(tier: Tier) -> i32 {
                 }
             }
             run_hists(&mut acc, &sys, "path-trace", hists);
+            // S6: losing the parent: every sequence of BMCA runs, the slave port's receipt timeout,
+            // announce timers and further parent Announces after a path of two was learnt
+            let two: Vec<[u8; 8]> = (0..2).map(|i| [0xbb, 0, 0, 0, 0, 0, 0, i as u8]).collect();
+            let depth = tier.pick(5, 7);
+            let mut hists = vec![];
+            for code in 0..4usize.pow(depth as u32) {
+                let mut h = vec![ann_with(&parent, 500, vec![path_tlv(&two)])];
+                let mut c = code;
+                let mut seq = 501;
+                for _ in 0..depth {
+                    match c % 4 {
+                        0 => h.push(Ev::Bmca),
+                        1 => h.push(Ev::T(0, Timer::Receipt)),
+                        2 => h.extend(tann_all(n, 1)),
+                        _ => {
+                            h.push(ann_with(&parent, seq, vec![path_tlv(&two[..1])]));
+                            seq += 1;
+                        }
+                    }
+                    c /= 4;
+                }
+                h.extend(tann_all(n, 1));
+                hists.push(h);
+            }
+            run_hists(&mut acc, &sys, "path-trace-parent-loss", hists);
         }
     }
     rep.violations(acc.viols.into_values());
     rep.cover("evaluations", json!(acc.evals));
     rep.cover("distinct_nontrivial", json!(acc.nontrivial));
     rep.cover("per_scenario", json!(acc.per));
-    rep.cover("rule", json!("histories over a real boundary clock (slave port + 1-3 master ports) fed with Announces carrying TLVs: every type class x every even value length 0..1100 x sender class; pairs of sizes around the room left; all sequences to depth d of arrivals/announce timers/parent switch; 130-Announce overflow; path lengths 0..200 with loops; each with the daemon's real TlvForwarder and with minimal providers (< and <=); non-trivial = executions that ran to completion (no panic), each judging every emitted Announce against the reference queue"));
+    rep.cover("rule", json!("histories over a real boundary clock (slave port + 1-3 master ports) fed with Announces carrying TLVs: every type class x every even value length 0..1100 x sender class; pairs of sizes around the room left; all sequences to depth d of arrivals/announce timers/parent switch; 130-Announce overflow; path lengths 0..200 with loops; all sequences to depth 5|7 of BMCA / receipt timeout / announce timers / parent Announces after a path was learnt; each with the daemon's real TlvForwarder and with minimal providers (< and <=); non-trivial = executions that ran to completion (no panic), each judging every emitted Announce against the reference queue"));
     rep.cover("exhaustive", json!(true));
     rep.cover("samples", json!([{"world": "bc-2p-plain-Daemon", "history": "Announce(parent, TLV 0x4000 len 956) ; announce timer x2"}, {"world": "bc-2p-pathtrace-Daemon", "history": "Announce(parent, PATH_TRACE 128 entries) ; announce timer"}]));
     rep.assume("the main.rs glue (ForwardTLV action -> TlvForwarder::forward, one duplicate() per port) is represented by the harness host written to the PortAction documentation; ethernet_port_task's call to tlv_forwarder.empty() is not executed");
